@@ -664,3 +664,49 @@ pub fn asserts_of(file: &syn::File, ty: Option<&str>, sig: &syn::Signature, bloc
     go(file, ty, &mut env, block, 3, &mut out);
     out
 }
+
+
+/// `const NAME: &str = "lit";` items of a file at any nesting level EXCEPT inside `#[cfg(test)]` modules; a name defined
+/// twice with different values is dropped (whichever definition a use site sees is then not ours to guess)
+pub fn str_consts(f: &syn::File) -> BTreeMap<String, String> {
+    struct C {
+        found: BTreeMap<String, String>,
+        clash: std::collections::BTreeSet<String>,
+    }
+    impl C {
+        fn add(&mut self, n: String, v: String) {
+            match self.found.get(&n) {
+                Some(old) if *old != v => {
+                    self.clash.insert(n);
+                }
+                _ => {
+                    self.found.insert(n, v);
+                }
+            }
+        }
+    }
+    impl<'ast> syn::visit::Visit<'ast> for C {
+        fn visit_item_mod(&mut self, m: &'ast syn::ItemMod) {
+            if crate::inventory::is_cfg_test(&m.attrs) {
+                return;
+            }
+            syn::visit::visit_item_mod(self, m);
+        }
+        fn visit_item_const(&mut self, c: &'ast syn::ItemConst) {
+            if let Some(l) = str_lit(&c.expr) {
+                self.add(c.ident.to_string(), l);
+            }
+        }
+        fn visit_impl_item_const(&mut self, c: &'ast syn::ImplItemConst) {
+            if let Some(l) = str_lit(&c.expr) {
+                self.add(c.ident.to_string(), l);
+            }
+        }
+    }
+    let mut c = C { found: BTreeMap::new(), clash: Default::default() };
+    syn::visit::Visit::visit_file(&mut c, f);
+    for n in &c.clash {
+        c.found.remove(n);
+    }
+    c.found
+}
